@@ -18,6 +18,13 @@ fn fwd(op: &Op, _ctx: &dyn Context, operands: &mut dyn CoordinateSet) -> usize {
     for i in 0..n {
         let mut coord = operands.get_coord(i);
 
+        // A position that is not a number is not "outside of the grids": It
+        // must not pass through a null grid looking half valid
+        if coord[0].is_nan() || coord[1].is_nan() {
+            operands.set_coord(i, &Coor4D::nan());
+            continue;
+        }
+
         if let Some(d) = grids_at(grids, &coord, use_null_grid) {
             // Geoid
             if grids[0].bands() == 1 {
@@ -60,6 +67,10 @@ fn inv(op: &Op, _ctx: &dyn Context, operands: &mut dyn CoordinateSet) -> usize {
 
     'points: for i in 0..n {
         let mut coord = operands.get_coord(i);
+        if coord[0].is_nan() || coord[1].is_nan() {
+            operands.set_coord(i, &Coor4D::nan());
+            continue;
+        }
         if let Some(t) = grids_at(grids, &coord, use_null_grid) {
             // Geoid
             if grids[0].bands() == 1 {
